@@ -37,7 +37,9 @@ CHECKS['C20'] = {
           'logs are keyed by the lower-cased address (explicit in the model); spelling irrelevant, peers of one handler '
           'independent, audit for every peer (C20_peer_spelling_irrelevant, C20_peers_independent, C20_audit_every_peer); the '
           'check runs IPv4 / IPv6 lower-, upper-, mixed-case addresses, changing spellings and two peers per handler x rotations '
-          'x restarts.',
+          'x restarts, non-canonical IPv6 text forms, callbacks made through a real BGPPeering/protocol object built from the '
+          'configuration (C20_agent_wiring; factory.peer_addr compared each run). Non-ASCII event text: in the payload pool, plus '
+          'histories in a child process with an ASCII default encoding (LC_ALL=C, PYTHONUTF8=0) incl. locale changes across restarts.',
   'note': 'abstract file system (append/truncate/getsize; fsync-per-write assumption checked at run time); complete JSON <=> parseable '
           '(validated at every swept offset); file names sort in creation order (driven clock); simplejson stub',
   'technique': 'Coq proof (induction over histories) + refutation witnesses + model/implementation correspondence with crash injection at every byte offset',
